@@ -282,7 +282,11 @@ def main():
     for p in props:
         pid = p["id"]
         if pid in CLAIMED:
-            c = CLAIMED[pid]
+            c = dict(CLAIMED[pid])
+            # texts refreshed after the extension pass live in harness/manifest_texts/Cxx.txt (one file per property)
+            tf = VERIF / "harness" / "manifest_texts" / f"{pid}.txt"
+            if tf.exists():
+                c["text"] = " ".join(tf.read_text().split())
             checks.append({
                 "property_id": pid,
                 "quick_cmd": f"./check {pid} --tier quick",
